@@ -179,11 +179,39 @@ let () =
                let defs = List.map parse_arg (List.rev args) in
                List.iter (fun (_, d, _) ->
                    match add_argument !merged d.a_key () with Ok t' -> merged := t' | _ -> raise Setup) defs;
+               let index_of_key k =
+                 let rec go i = function
+                   | [] -> raise Setup     (* constraint names an unknown argument *)
+                   | (_, d, _) :: r -> if key_eq d.a_key k then i else go (i + 1) r in
+                 go 0 defs in
+               let kind_of i = let (_, d, _) = List.nth defs i in d.a_kind in
+               let value_con spec =
+                 let ixs = List.map index_of_key (keys_of_list spec) in
+                 let rec dup = function [] -> false | x :: r -> List.mem x r || dup r in
+                 if dup ixs then raise Setup;
+                 (match ixs with
+                  | i :: r -> if List.exists (fun j -> kind_of j <> kind_of i) r then raise Setup
+                  | [] -> raise Setup);
+                 ixs in
                let gcons = List.map (fun t ->
                    match String.split_on_char ':' t with
                    | [_; "all_of"; spec] -> GCAll (keys_of_list spec)
                    | [_; "any_of"; spec] -> GCAny (keys_of_list spec)
                    | [_; "one_of"; spec] -> GCOne (keys_of_list spec)
+                   | [_; "differ"; spec] ->
+                       let ixs = value_con spec in
+                       if List.length ixs < 2 then raise Setup;
+                       (match kind_of (List.hd ixs) with DInt | DStr -> () | _ -> raise (Unsupported "differ kind"));
+                       GCDiffer (List.map nat_of_int ixs)
+                   | [_; "disjoint"; spec] ->
+                       (match keys_of_list spec with
+                        | [_; _] -> ()
+                        | l -> if List.length l > 2 then raise Setup else raise Setup);
+                       (match value_con spec with
+                        | [i; j] ->
+                            (match kind_of i with DVecInt | DVecStr -> () | _ -> raise (Unsupported "disjoint kind"));
+                            GCDisjoint (nat_of_int i, nat_of_int j)
+                        | _ -> raise Setup)
                    | _ -> raise (Unsupported "constraint")) (List.rev cons) in
                let c = { args = List.map (fun (_, d, _) -> d) defs; gcons = gcons;
                          abbr = (flags land 0x80 = 0); fixed_notify = not !pinned } in
